@@ -3,6 +3,7 @@ lock-step with the implementation's trace.  Oracle failures = the implementation
 violate a property predicate; model diffs = implementation and M1 disagree. -/
 import BytesVerif.Model.Core
 import BytesVerif.Model.CoreSpec
+import BytesVerif.Model.CoreWF
 import BytesVerif.Judge.Util
 namespace BytesVerif.Judge.SeqJ
 open BytesVerif.Core BytesVerif.Judge
@@ -214,8 +215,8 @@ def emit (s : JS) (oracle : Bool) (msg : String) : IO JS := do
                   model := none }
 
 def reprName : Handle → String
-  | .bytes .static .. => "static" | .bytes (.owned _) .. => "owned" | .bytes (.prom none) .. => "prom-vec"
-  | .bytes (.prom (some _)) .. => "prom-arc" | .bytes (.shared _) .. => "shared" | .bytes (.sharedV _) .. => "sharedV"
+  | .bytes .static .. => "static" | .bytes (.owned _) .. => "owned" | .bytes (.prom _ none) .. => "prom-vec"
+  | .bytes (.prom _ (some _)) .. => "prom-arc" | .bytes (.shared _) .. => "shared" | .bytes (.sharedV _) .. => "sharedV"
   | .mut none _ 0 .. => "mut-vec" | .mut none .. => "mut-vec-off" | .mut (some _) .. => "mut-arc" | .vec .. => "vec"
 
 /-! ### property predicates on the implementation's observations -/
@@ -243,12 +244,6 @@ def boundsOracle (obs : List Obs) : Option (String × String) :=
     match clash with
     | some (a, b) => some ("C04", s!"region of mutable handle {a} overlaps handle {b}")
     | none => none
-
-/-- control block a handle holds a reference on, in the model -/
-def ctrlOf : Handle → Option Nat
-  | .bytes (.owned c) .. | .bytes (.shared c) .. | .bytes (.sharedV c) .. | .bytes (.prom (some c)) .. => some c
-  | .mut (some c) .. => some c
-  | _ => none
 
 /-- C08: is_unique against the set of live handles that refer to the same storage.  "Refers" is
 taken from the handle structure (which control block a handle names; an empty zero-capacity
@@ -400,7 +395,9 @@ def judgeBlock (s : JS) : IO JS := do
       | .ok v m' => (.ok v, m')
       | .panic m' => (.panic, m')
       | .ub _ m' => (.panic, m')
-    if mout != out then
+    if !wfB m' then
+      emit s false s!"model-diff SEQ op={opw.headD "?"} invariant WF-does-not-hold-on-the-model-state"
+    else if mout != out then
       emit s false s!"model-diff SEQ op={opw.headD "?"} impl={(reprStr out).replace " " "_"} model={(reprStr mout).replace " " "_"}"
     else
       let mo := modelObs m'
